@@ -186,7 +186,8 @@ Definition mon_poll (p : params) (napps : nat) (m : mon) (s : pstep) : mon * lis
   let slot := slot_time p in
   let silent_for (d : Z) : bool := match lba with Some l => l + d <? now | None => true end in
   let txt := match s_tx s with Some w => decode_one w | None => None end in
-  let tels := delivered (s_rx s) in
+  (* only needed (and only computed) when the station consumed something in this poll *)
+  let tels := if Nat.eqb (s_consumed s) 0 then [] else delivered (s_rx s) in
   let heard := (negb (Nat.eqb (s_consumed s) 0)) && match tels with _ :: _ => true | [] => false end in
   let lastt := if Nat.eqb (s_consumed s) 0 then None else last_delivered (s_rx s) in
   (* ------------------------------------------------ C01 *)
